@@ -542,18 +542,11 @@ def rule_m3_cut(chk: Check) -> None:
     chk.ob("M3", "hand-assembled ParsedURL sites examined", True, f"{n} sites", nontrivial=False)
 
 
-def run(chk: Check) -> None:
-    mach = rule_m1(chk)
-    rule_m1b(chk, mach)
-    rule_m2(chk)
-    rule_m3(chk, mach)
-    rule_m3_cut(chk)
-    rule_m4(chk)
-    rule_m5(chk, mach)
+def rule_m3p(chk: Check, R: str = "M3p") -> None:
     # the client's identity is the certificate whose key was proven in the handshake:
     # OpenSSL hands that out through get_peer_certificate() only; the chain APIs list what
     # the peer *sent along* (on a server the chain excludes the peer's own certificate)
-    chk.rule("M3p", "the presented certificate is taken from get_peer_certificate() only: no value of get_peer_cert_chain() / get_verified_chain() is returned or indexed as the peer's certificate")
+    chk.rule(R, "the presented certificate is taken from get_peer_certificate() only: no value of get_peer_cert_chain() / get_verified_chain() is returned or indexed as the peer's certificate")
     n_api = 0
     okp = True
     for fi in chk.proj.functions.values():
@@ -576,12 +569,58 @@ def run(chk: Check) -> None:
                 if used:
                     okp = False
                     chk.finding(
-                        "M3p", fi.key, f"identity-from-chain:{norm(c)[:40]}",
+                        R, fi.key, f"identity-from-chain:{norm(c)[:40]}",
                         f"`{norm(c)}` is used as the peer's certificate: the chain holds what the client sent along, not the certificate whose private key the handshake proved - a client can append an authorised user's public certificate and be admitted under that fingerprint",
                         fi.loc(c),
                     )
-    chk.require("M3p", "security.pyopenssl_tls", "get_peer_certificate() call sites", n_api, 1, "the PyOpenSSL backend no longer reads the peer certificate with get_peer_certificate()")
-    chk.ob("M3p", "peer identity comes from get_peer_certificate() only", okp, evals=n_api)
+    chk.require(R, "security.pyopenssl_tls", "get_peer_certificate() call sites", n_api, 1, "the PyOpenSSL backend no longer reads the peer certificate with get_peer_certificate()")
+    chk.ob(R, "peer identity comes from get_peer_certificate() only", okp, evals=n_api)
+
+
+def rule_m1c(chk: Check) -> None:
+    """`if self.middleware:` means "a chain is configured" only while middleware
+    objects are always truthy.  A component that defines __len__ / __bool__ (e.g.
+    a limiter that reports its number of tracked addresses) is falsy while empty,
+    and the protocol then serves without consulting it."""
+    chk.rule("M1c", "presence tests of the configured chain mean presence: the protocol tests `is not None`, or no class with a process_request method defines __len__ / __bool__")
+    ci = chk.proj.cls(SERVER_PROTO)
+    truthy_tests = 0
+    for m in ci.methods.values():
+        g = build_cfg(chk.proj, m)
+        for t in g.nodes:
+            if t.kind == "test" and t.ast is not None:
+                a = t.ast
+                while isinstance(a, ast.UnaryOp) and isinstance(a.op, ast.Not):
+                    a = a.operand
+                if dotted(a) == "self.middleware":
+                    truthy_tests += 1
+    special = []
+    for c2 in chk.proj.classes.values():
+        if "process_request" in c2.methods:
+            special += [(c2, mn) for mn in ("__len__", "__bool__") if mn in c2.methods]
+    ok = not (truthy_tests and special)
+    for c2, mn in special if truthy_tests else []:
+        chk.finding(
+            "M1c", c2.key, f"falsy-middleware:{mn}",
+            f"{c2.name} defines {mn}, so an instance can be falsy (e.g. while it tracks nothing); the protocol decides 'no chain configured' with {truthy_tests} truthiness test(s) of self.middleware and then dispatches without consulting it: every request is served unchecked",
+            c2.methods[mn].loc(),
+        )
+    chk.ob("M1c", "a configured chain is never falsy", ok, f"{truthy_tests} truthiness tests, {len(special)} special methods", evals=truthy_tests + len(special))
+
+
+def run(chk: Check) -> None:
+    mach = rule_m1(chk)
+    rule_m1b(chk, mach)
+    rule_m1c(chk)
+    rule_m2(chk)
+    rule_m3(chk, mach)
+    rule_m3_cut(chk)
+    rule_m4(chk)
+    rule_m5(chk, mach)
+    rule_m3p(chk)
+    from .c19 import wire_fidelity
+
+    wire_fidelity(chk, "M3w", "the URL the chain is consulted with carries exactly the path the handler acts on: normalised string and ParsedURL fields are built from the same components (= C19.N1-N3)")
     from .c03 import fingerprint_definition
 
     chk.rule("M3f", "the fingerprint the chain is consulted with is a pure function of the presented certificate: sha256 over its DER encoding, no state between calls (= C03.T4)")
